@@ -27,7 +27,8 @@ RULE = ("Exhaustive enumeration: every constant of symplyphysics.quantities (nam
     "1e-9 with the dimension of each side; plus the __all__ scan. A case is non-trivial when the constant's dimension "
     "involves >= 2 base dimensions; distinct non-trivial cases are counted per constant (views of one constant count once). "
     "Histories: Hypothesis-generated sequences (1-6 steps) of ordinary public-API uses of catalogue constants (Quantity(c), "
-    "Quantity(c, dimension=...), renamed copies, products, ratios, powers, conversions, approximate comparison, abs), each in "
+    "Quantity(c, dimension=...), renamed copies, products, ratios, powers, conversions, approximate comparison, abs, reduced-precision evalf, a second thread, copy.copy / deepcopy and pickle "
+    "round trips of the constant and of expressions containing it), each in "
     "a forked process of its own, after which the whole table and the identities are judged again; non-trivial = two or "
     "more steps or a copy-constructing step.")
 
@@ -424,7 +425,7 @@ def judge_scan(tb: Table) -> tuple[list[Viol], list[str], list[str]]:
 
 
 USES = ("wrap", "wrap_dim", "wrap_named", "scaled", "ratio", "power", "convert_si", "convert_unit", "approx", "collect",
-    "abs", "float", "thread", "evalf")
+    "abs", "float", "thread", "evalf", "copy", "pickle")
 
 
 def history_strategy() -> Any:
@@ -488,6 +489,20 @@ def _use(tb: Table, step: list[Any]) -> None:
             sympy.N(q * (k + 2), 3 + k % 4)
             (q**2 / other).evalf(4)
             (q + q).n(5)
+        elif kind in ("copy", "pickle"):
+            # a copy / serialisation round trip of the constant, then of an expression containing it (each attempt on its
+            # own: where the operation is not supported the exception is the whole effect)
+            import copy
+            import pickle
+            for obj in (q, q * other / (k + 1), [q, other]):
+                try:
+                    if kind == "copy":
+                        copy.copy(obj)
+                        copy.deepcopy(obj)
+                    else:
+                        pickle.loads(pickle.dumps(obj))
+                except Exception:  # pylint: disable=broad-except
+                    pass
         elif kind == "abs":
             abs(q)
         elif kind == "float":
